@@ -68,8 +68,14 @@ class PoolExec:
                 ex.proto_owner[id(proto)] = req.name
                 return proto
 
-        self.connector = HarnessConnector(limit=L, limit_per_host=Lh, keepalive_timeout=3600.0,
+        # keep-alive ages are measured on the virtual clock (the connector uses time.monotonic)
+        import aiohttp.connector as _conn_mod
+        _conn_mod.monotonic = loop.time  # type: ignore[attr-defined]
+        self.KA = 3600.0
+        self.connector = HarnessConnector(limit=L, limit_per_host=Lh, keepalive_timeout=self.KA,
                                           enable_cleanup_closed=False)
+        self.stale: set = set()          # connections that were idle in the pool when the keep-alive time ran out
+        self.pooled: set = set()         # connections released into the pool and not handed out again (harness view)
         self.ClientTimeout = ClientTimeout
         self.tasks: Dict[str, asyncio.Task] = {}
         self.started: Dict[str, bool] = {}
@@ -106,7 +112,16 @@ class PoolExec:
             "idle": self.loop.is_idle(),
             "closed": self.closed,
             "open": sorted(n for n, tr in self.transports.items() if not tr.closing),
+            "held": {n: self.held_conn(n) for n in self.names},
+            "stale": sorted(self.stale),
         }
+
+    def held_conn(self, n: str) -> str:
+        """Creator of the connection caller n holds ('' if none)."""
+        t = self.tasks.get(n)
+        if t is None or not t.done() or t.cancelled() or t.exception() is not None or self.released.get(n):
+            return ""
+        return self.proto_owner.get(id(getattr(t.result(), "protocol", None)), "")
 
     def priv(self) -> dict:
         c = self.connector
@@ -123,6 +138,9 @@ class PoolExec:
         e.update(kw)
         e["obs"] = self.obs()
         self.events.append(e)
+        now_held = set(e["obs"]["held"].values())
+        self.stale -= now_held
+        self.pooled -= now_held
 
     # ---- environment actions
     def spawn(self, n: str) -> None:
@@ -180,10 +198,13 @@ class PoolExec:
 
     def release(self, n: str, close: bool) -> None:
         conn = self.tasks[n].result()
+        c = self.held_conn(n)
         if close:
             conn.close()
         else:
             conn.release()
+            if c and not self.closed:
+                self.pooled.add(c)
         self.released[n] = True
         self.rec("release", t=n, close=close)
 
@@ -192,6 +213,25 @@ class PoolExec:
         tr.closing = True
         tr._call_connection_lost(None)
         self.rec("peerclose", t=c)
+
+    def time_passes(self) -> None:
+        """The clock runs past keepalive_timeout; no timer callback has run yet."""
+        held = {self.held_conn(n) for n in self.names}
+        self.stale |= {c for c in self.pooled if c not in held and not self.transports[c].closing}
+        self.loop._vtime += self.KA + 1
+        self.rec("timepass")
+
+    def cleanup(self) -> bool:
+        """Fire the timers that are due (the connector's _cleanup handle; connect timeouts)."""
+        before = len(self.loop._ready)
+        self.loop._move_due_timers()
+        due = [self.loop._ready.pop() for _ in range(len(self.loop._ready) - before)][::-1]
+        for h in due:           # timer callbacks run now; the callers' pending steps keep their order
+            if not h._cancelled:
+                h._run()
+        self.run_others()
+        self.rec("cleanup")
+        return bool(due)
 
     def close(self) -> None:
         coro = self.connector.close()
@@ -288,6 +328,8 @@ class PoolExec:
                 for e in self.events:
                     e["obs"]["st"].setdefault(n, "new")
                     e["obs"]["key"].setdefault(n, self.keyof[n])
+                    e["obs"]["held"].setdefault(n, "")
+                self.init_obs["held"].setdefault(n, "")
                 self.init_obs["st"].setdefault(n, "new")
                 self.init_obs["key"].setdefault(n, self.keyof[n])
             for i in range(self.L):
@@ -302,6 +344,11 @@ class PoolExec:
                 n = f"p{i}"
                 if self.status(n) == "holding":
                     self.release(n, True)
+            self.settle()
+        if not self.closed and all(self.status(n) in ("new", "done", "failed", "cancelled") for n in self.names):
+            # every execution ends with connector.close(): whatever transport is still open afterwards
+            # was created by the connector and forgotten by it (CloseLeavesConnectionOpen)
+            self.close()
             self.settle()
 
     def teardown(self) -> None:
@@ -329,6 +376,7 @@ _act = re.compile(r"(\w+)(?:\((.*)\))?$")
 
 
 def parse_action(label: str) -> tuple:
+    label = label.replace("\\", "")      # labels taken from the dot dump carry escaped quotes
     m = _act.match(label)
     if not m:
         return (label, [])
@@ -344,7 +392,10 @@ _PC2ST = {"qstart": "waiting", "qend": "waiting", "cstart": "creating", "cend": 
 
 
 def model_projection(st: dict) -> dict:
-    return {"st": {str(k): _PC2ST.get(str(v), str(v)) for k, v in st["pc"].items()}, "closed": bool(st["closed"])}
+    return {"st": {str(k): _PC2ST.get(str(v), str(v)) for k, v in st["pc"].items()}, "closed": bool(st["closed"]),
+            # (the model marks a connection alive at CreateOk; the code creates the transport when the
+            #  creating task runs next, so connections whose creator has not stepped yet are left out)
+            "open": sorted(str(k) for k, v in st["alive"].items() if v and str(st["pc"][k]) != "creating")}
 
 
 def replay_behaviour(ctx: Ctx, loop: steploop.StepLoop, beh: List[Any], consts: dict) -> dict:
@@ -372,6 +423,12 @@ def replay_behaviour(ctx: Ctx, loop: steploop.StepLoop, beh: List[Any], consts: 
                 x.peer_close_idle(args[0])
             elif act == "Close":
                 x.close()
+            elif act == "TimePasses":
+                x.time_passes()
+            elif act == "Cleanup":
+                if not x.cleanup():
+                    drift = "not-enabled:Cleanup:no-timer-due"
+                    break
             else:
                 raise MachineryError(f"unknown model action {label}")
         except MachineryError:
@@ -383,6 +440,11 @@ def replay_behaviour(ctx: Ctx, loop: steploop.StepLoop, beh: List[Any], consts: 
         got = x.obs()
         if any(got["st"].get(n) != mp["st"].get(n) for n in names) or got["closed"] != mp["closed"]:
             drift = f"state:{act}"
+            break
+        if sorted(got["open"]) != mp["open"]:
+            # which transports are open is part of the model (alive); a difference is a refinement
+            # mismatch here and, if it is a leak, a property violation at the final close()
+            drift = f"open-set:{act}"
             break
         ctx.action_cover[act] = ctx.action_cover.get(act, 0) + 1
         # refinement on private books (drift only)
@@ -414,6 +476,7 @@ def random_exec(ctx: Ctx, loop: steploop.StepLoop, rng: Any) -> dict:
     traced = {n for n in names if rng.random() < 0.5} if rng.random() < 0.3 else set()
     x = PoolExec(loop, L, Lh, names, keyof, touts, traced)
     allow_close = rng.random() < 0.2
+    expiry = rng.random() < 0.35
     for _ in range(rng.randint(6, 40)):
         acts = []
         sts = {n: x.status(n) for n in names}
@@ -435,6 +498,10 @@ def random_exec(ctx: Ctx, loop: steploop.StepLoop, rng: Any) -> dict:
             acts.append(("tick", None))
         if allow_close and not x.closed and rng.random() < 0.1:
             acts.append(("close", None))
+        if expiry and not x.closed and x.pooled and rng.random() < 0.3:
+            acts.append(("timepass", None))
+        if expiry and x.loop.next_timer() is not None and x.loop.next_timer() <= x.loop.time() and rng.random() < 0.5:
+            acts.append(("cleanup", None))
         if not acts:
             break
         a, n = rng.choice(acts)
@@ -464,6 +531,10 @@ def random_exec(ctx: Ctx, loop: steploop.StepLoop, rng: Any) -> dict:
         elif a == "close":
             x.close()
             x.settle()
+        elif a == "timepass":
+            x.time_passes()
+        elif a == "cleanup":
+            x.cleanup()
     x.finish()
     tr = x.trace("random")
     if x.close_error:
@@ -491,11 +562,14 @@ CONSTANTS
   TraceLeakFix = TRUE
   ReuseLeakFix = {rlf}
   RequeueHandoff = {rqh}
+  MaxExpire = {mx}
 {liminv}INVARIANT Accounting
 INVARIANT NoLostWake
 INVARIANT NoLeak
 INVARIANT IdleDistinct
 INVARIANT NoUntracked
+INVARIANT StaleStaysPooled
+INVARIANT TimerSane
 PROPERTY CloseFailsAll
 CHECK_DEADLOCK FALSE
 """
@@ -515,16 +589,16 @@ def tla_set(xs: List[str]) -> str:
 
 def write_cfg(variant: str, L: int, Lh: int, handoff: bool, mc: int, mf: int, close: bool, peer: bool,
               ideal: bool = False, limits: bool = True, traced: Optional[List[str]] = None,
-              rlf: bool = True, rqh: bool = True) -> tuple:
+              rlf: bool = True, rqh: bool = True, mx: int = 0) -> tuple:
     tasks, keys, keyof = VARIANTS[variant]
     d = mktemp("c07cfg")
-    p = os.path.join(d, f"ClientPool_{variant}_{L}_{Lh}.cfg")
+    p = os.path.join(d, f"ClientPool_{variant}_{L}_{Lh}_{mx}.cfg")
     with open(p, "w") as f:
         f.write(CFG.format(tasks=tla_set(tasks), keys=tla_set(keys), keyof=variant, L=L, Lh=Lh,
                            handoff=str(handoff).upper(), reuse=str(ideal).upper(),
                            traced=tla_set(traced or []), rlf=str(rlf).upper(), rqh=str(rqh).upper(),
                            liminv="INVARIANT HarnessLimit\nINVARIANT LimitInv\n" if limits else "", mc=mc, mf=mf, close=str(close).upper(),
-                           peer=str(peer).upper()))
+                           peer=str(peer).upper(), mx=mx))
     return p, {"tasks": tasks, "keys": keys, "keyof": keyof, "L": L, "Lh": Lh, "traced": list(traced or [])}
 
 
@@ -548,6 +622,9 @@ def judge(ctx: Ctx, traces: List[dict], label: str) -> None:
                 sig += " after " + ",".join(hist)
                 if cancelled:
                     sig += " with-ended-callers"
+            if v.clause == "StaleReuse":
+                ctx.drift("StaleReuse")       # refinement clause: keep-alive expiry is not part of C07
+                continue
             ctx.violation(v.clause, sig, {"trace": t, "failed_at": v.pos, "label": label}, "trace")
     t0 = traces[0]
     ctx.sample({"src": t0["src"], "L": t0["cfg"]["L"], "Lh": t0["cfg"]["Lh"],
@@ -572,14 +649,14 @@ def run(ctx: Ctx) -> None:
          ("KeyOf4", 2, 1, 1, 1, False, False), ("KeyOf2", 2, 0, 1, 1, True, True)])
     for (variant, L, Lh, mc, mf, close, peer) in models:
         # (a) the ideal design (idle reuse guarded by the limit): every invariant must hold
-        cfg, _ = write_cfg(variant, L, Lh, True, mc, mf, close, peer, ideal=True, limits=True)
+        cfg, _ = write_cfg(variant, L, Lh, True, mc, mf, close, peer, ideal=True, limits=True, mx=1)
         res = run_tlc("ClientPoolMC", cfg, workers=16, timeout=ctx.pick(400, 3000), deadlock=False)
-        ok = ctx.expect_model_ok(f"ClientPool[ideal]({variant},L={L},Lh={Lh},cancel<={mc},fail<={mf},close={close})", res)
+        ok = ctx.expect_model_ok(f"ClientPool[ideal]({variant},L={L},Lh={Lh},cancel<={mc},fail<={mf},close={close},expire<=1)", res)
         ctx.log(f"model[ideal] {variant} L={L} Lh={Lh}: {res.distinct} distinct states ok={ok} {res.wall_s:.0f}s")
         # (b) the code as it is (Dev_C07_reuse_ignores_limit enabled): everything but the limit invariants
-        cfg, _ = write_cfg(variant, L, Lh, True, mc, mf, close, peer, ideal=False, limits=False)
+        cfg, _ = write_cfg(variant, L, Lh, True, mc, mf, close, peer, ideal=False, limits=False, mx=1)
         res = run_tlc("ClientPoolMC", cfg, workers=16, timeout=ctx.pick(400, 3000), deadlock=False)
-        ok = ctx.expect_model_ok(f"ClientPool[as-coded]({variant},L={L},Lh={Lh},cancel<={mc},fail<={mf},close={close})", res)
+        ok = ctx.expect_model_ok(f"ClientPool[as-coded]({variant},L={L},Lh={Lh},cancel<={mc},fail<={mf},close={close},expire<=1)", res)
         ctx.log(f"model[as-coded] {variant} L={L} Lh={Lh}: {res.distinct} distinct states ok={ok} {res.wall_s:.0f}s")
     # (b') callers with suspending TraceConfig callbacks (extra await points inside connect())
     for (variant, L, Lh, tr) in ctx.pick([("KeyOf1", 1, 0, ["t1", "t2"])],
@@ -620,6 +697,21 @@ def run(ctx: Ctx) -> None:
         for b in behs:
             traces.append(replay_behaviour(ctx, loop, b, consts))
         ctx.log(f"replayed {len(behs)} behaviours of {variant} L={L} Lh={Lh}; actions covered: {dict(ctx.action_cover)}")
+    # keep-alive expiry: every transition of a small instance (transition cover) + simulated behaviours
+    from engine.tlc import cover_behaviours
+    cfg, consts = write_cfg("KeyOf1", 1, 0, True, 0, 0, False, True, mx=2)
+    behs, cres = cover_behaviours("ClientPoolMC", cfg, timeout=900)
+    ctx.extra["transition_cover"] = {"model": "ClientPool(KeyOf1,L=1,expire<=2,peer close)", "paths": len(behs),
+                                     "edges_traversed": sum(len(b) - 1 for b in behs), "states": cres.distinct}
+    for b in behs:
+        traces.append(replay_behaviour(ctx, loop, b, consts))
+    for (variant, L, Lh, mc, num) in ctx.pick([("KeyOf2", 2, 0, 0, 200), ("KeyOf2", 1, 1, 1, 150)],
+                                              [("KeyOf2", 2, 0, 0, 2000), ("KeyOf2", 1, 1, 1, 2000), ("KeyOf4", 2, 1, 1, 1500)]):
+        cfg, consts = write_cfg(variant, L, Lh, True, mc, 0, False, True, mx=2)
+        sb, _ = simulate_behaviours("ClientPoolMC", cfg, num=num, depth=ctx.pick(30, 40), seed=ctx.seed + 7, timeout=400)
+        for b in sb:
+            traces.append(replay_behaviour(ctx, loop, b, consts))
+    ctx.log(f"replayed {len(behs)} transition-cover paths + expiry simulations; actions covered: {dict(ctx.action_cover)}")
     judge(ctx, traces, "tlc-sim")
     # ---- 3. random schedules
     n = ctx.pick(2500, 30000)
